@@ -373,6 +373,23 @@ pub mod mirror {
     pub fn regex_full(s: &str, p: &str) -> bool {
         regex::Regex::new(&format!("^(?:{})$", p)).map(|r| r.is_match(s)).unwrap_or(false)
     }
+    /// the member lookup the implementation is KNOWN to perform for a name-selector text (open findings on escapes and quotes): `\\\\` and `\\/`
+    /// are decoded, every other escape is kept as written, then every enclosing quote character of the same kind is trimmed (trim_matches)
+    pub fn known_lookup_key(text: &str) -> String {
+        let cs: Vec<char> = text.chars().collect();
+        let mut n = String::new();
+        let mut i = 0;
+        while i < cs.len() {
+            if cs[i] == '\\' && i + 1 < cs.len() && (cs[i + 1] == '\\' || cs[i + 1] == '/') { n.push(cs[i + 1]); i += 2; }
+            else { n.push(cs[i]); i += 1; }
+        }
+        if n.starts_with('\'') && n.ends_with('\'') { n.trim_matches('\'').to_string() }
+        else if n.starts_with('"') && n.ends_with('"') { n.trim_matches('"').to_string() }
+        else { n }
+    }
+    /// the pattern the implementation is KNOWN to hand to the regex engine (open finding: prepare_regex collapses `\\\\` to `\\` whatever the
+    /// origin of the pattern, to make up for the escapes the parser does not decode)
+    pub fn known_pattern(p: &str) -> String { if p.contains("\\\\") { p.replace("\\\\", "\\") } else { p.to_string() } }
     pub fn regex_find(s: &str, p: &str) -> bool {
         regex::Regex::new(p).map(|r| r.is_match(s)).unwrap_or(false)
     }
